@@ -2091,7 +2091,7 @@ def external_modules(interp):
         from . import sstr as _s
         L = it.ctx.fresh('nowlen', 'int')
         it.ctx.atoms.facts.append(z3.Or(L == 19, L == 26))
-        return _s.SStr([_s.Tok('now', mk(L), excl='\n\r!', first_nondigit=False)])
+        return _s.SStr([_s.Tok('now', mk(L), excl='\n\r!\'"', first_nondigit=False)])
     def yaml_dump(it, data=None, stream=None, **kw):
         # PyYAML is an external dependency: the text it produces is opaque
         # (one unknown piece per call); what is handed to it is recorded
